@@ -117,7 +117,7 @@ for p in props:
           "level_note":c["note"],"technique":c["tech"]})
 na=[{"property_id":p,"reason":"check not built yet (work in progress; see DESIGN.md section 6b) - not claimed until it is"} for p in props if p not in C]
 m={"version":1,"setup_cmd":"./check --setup",
- "hooks":{"guard":"cargo feature `verif` (on utils, chunk_cache, cas_client, data; new inert crate verif_hooks)",
+ "hooks":{"guard":"cargo feature `verif` (on utils, chunk_cache, cas_client, data, mdb_shard; new inert crate verif_hooks)",
   "enable":"the harness crates under /verif/harness are cargo path-dependents of /repo/<crate> with features=[\"verif\"]; every ./check run does an incremental cargo build --offline first",
   "baseline_off_cmd":"cd /repo && cargo nextest run --workspace --no-fail-fast --offline",
   "source_commits":["f198c7b","5a597fe","61cee61","49b5b9d","fbaea1e","06d5c26","10e9a05","cabe0fc","875100f","e0e88bd"],"add_only":True},
